@@ -445,9 +445,17 @@ def run(case, env):
               case["verb"] if case["verb"] in ("translate", "jail-open")
               else "objects")
     # (1) no operation outside the served directory (refused by the interlock)
-    check(not state.escapes, "C31/%s-verb-operates-outside-served-directory%s" %
-          ("vfs" if (root is None and family == "translate") else family,
-           "" if root is not None else "-without-root-translation"), detail)
+    # (the signature names the mechanism classes that are known, so that one
+    # open finding does not hide another: TAB / CR / LF in the decoded path,
+    # and the 'no root translation' configuration)
+    ctrl = any(c in _unquote_all(p) for p in case["paths"] for c in "\t\r\n")
+    check(not state.escapes,
+          "C31/%s-verb-operates-outside-served-directory%s%s" % (
+              "vfs" if (family == "translate" and (ctrl or root is None))
+              else family,
+              "-via-tab-cr-lf-in-path" if ctrl else "",
+              "" if root is not None else "-without-root-translation"),
+          detail)
     # (2) canaries and the host are untouched
     check(canary_now == lay.canary, "C31/files-outside-served-directory-changed",
           {"case": case, "changed": sorted(
@@ -539,7 +547,8 @@ def _jail_open_probe(case, backing, root, lay):
                 results.append("opened")
             except (errors.JailBreak, errors.NotBranchError, urlutils.InvalidURL,
                     te.PathError, te.TransportError, UnicodeError,
-                    ValueError) as e:
+                    ValueError, OSError) as e:
+                # (OSError: e.g. ENAMETOOLONG for a 300-character component)
                 results.append(type(e).__name__)
     finally:
         cmd.teardown_jail()
@@ -735,7 +744,11 @@ def gen_path(draw, root):
     p = "/".join(comps)
     style = draw(st.sampled_from(
         ["root"] * 6 + ["abs", "bare", "root-noslash", "root-enc",
-                        "root-twice", "root-dotdot", "root-encdot"]))
+                        "root-twice", "root-dotdot", "root-encdot",
+                        "root-ctrl"]))
+    if style == "root-ctrl":
+        return r + draw(st.sampled_from(
+            ["\n", "%0A", "\t", "%09", "%0d", "sub/\n"])) + "//" + p
     if style == "root":
         p = r + p
     elif style == "abs":
